@@ -143,6 +143,11 @@ struct G<'a> {
     rfc: Rfc,
     /// send halves this test finished or reset (successfully) itself
     closed_halves: BTreeSet<u64>,
+    /// what this test wrote / finished / reset itself per stream, and which streams saw an acknowledgement
+    wrote: BTreeMap<u64, u64>,
+    finished_halves: BTreeSet<u64>,
+    reset_halves: BTreeSet<u64>,
+    acked_streams: BTreeSet<u64>,
     /// frames in flight: (id, a, b, fin)
     flight: Vec<(u64, u64, u64, bool)>,
     /// ids returned by open / accept
@@ -193,9 +198,22 @@ impl G<'_> {
         // the legal behaviour only
         let legal = rfc_expect_ok;
         self.rfc.update(&words, &nv.result, legal);
-        if matches!(words[0], "finish" | "reset") && nv.result == "ok" {
-            if let Some(id) = words.get(1).and_then(|x| x.parse::<u64>().ok()) {
+        if let Some(id) = words.get(1).and_then(|x| x.parse::<u64>().ok()) {
+            if matches!(words[0], "finish" | "reset") && nv.result == "ok" {
                 self.closed_halves.insert(id);
+                if words[0] == "finish" {
+                    self.finished_halves.insert(id);
+                } else {
+                    self.reset_halves.insert(id);
+                }
+            }
+            if words[0] == "write" {
+                if let Some(k) = nv.result.strip_prefix("ok ").and_then(|k| k.parse::<u64>().ok()) {
+                    *self.wrote.entry(id).or_insert(0) += k;
+                }
+            }
+            if matches!(words[0], "ack" | "rstack" | "stopsend") {
+                self.acked_streams.insert(id);
             }
         }
         self.invariants(line, &prev, &nv);
@@ -262,13 +280,13 @@ impl G<'_> {
                 } else {
                     "C06-rfc-decision"
                 };
-                if !unchanged {
-                    self.rfc.diverged = true;
-                }
                 if key == "C06-lenient-frame-for-closed-stream-ignored" {
                     // RFC 9000 4.5: "Generating these errors is not mandatory" once the stream is closed and its state
                     // dropped — the endpoint cannot know the final size any more; not a violation
                     return;
+                }
+                if !unchanged {
+                    self.rfc.diverged = true;
                 }
                 self.fail(key, format!("{line}: RFC verdict {errs:?}, implementation accepts (state {}; {facts})", if unchanged { "unchanged" } else { "changed" }));
             }
@@ -823,6 +841,54 @@ impl G<'_> {
         }
     }
 
+    /// a Retry: everything sent in 0-RTT is sent again. C17 ("delivered ... exactly once ... including across a
+    /// Retry"): after `retransmit_all_for_0rtt` and a flush, for every stream this test wrote to or finished
+    /// (and did not reset, and that never saw an acknowledgement) the re-sent ranges cover [0, written) and
+    /// carry the FIN if the stream was finished — judged from the test's own record of its writes.
+    fn retry(&mut self) {
+        if self.op("rtx0").is_none() {
+            return;
+        }
+        self.flight.clear();
+        let mut seen: BTreeMap<u64, (Vec<(u64, u64)>, bool)> = BTreeMap::new();
+        for _ in 0..64 {
+            let Some(v) = self.op("transmit 70000 1") else { return };
+            let mut any = false;
+            for f in v.result.split(' ').skip(2) {
+                let p: Vec<u64> = f.split(':').filter_map(|x| x.parse().ok()).collect();
+                if p.len() == 4 {
+                    any = true;
+                    self.flight.push((p[0], p[1], p[2], p[3] == 1));
+                    let e = seen.entry(p[0]).or_insert((Vec::new(), false));
+                    e.0.push((p[1], p[2]));
+                    e.1 |= p[3] == 1;
+                }
+            }
+            if !any {
+                break;
+            }
+        }
+        let ids: BTreeSet<u64> = self.wrote.keys().cloned().chain(self.finished_halves.iter().cloned()).collect();
+        for id in ids {
+            if self.reset_halves.contains(&id) || self.acked_streams.contains(&id) || self.v.closed() {
+                continue;
+            }
+            let w = self.wrote.get(&id).cloned().unwrap_or(0);
+            let (mut ranges, fin) = seen.get(&id).cloned().unwrap_or((Vec::new(), false));
+            ranges.sort();
+            let mut covered = 0u64;
+            for (a, b) in ranges {
+                if a <= covered {
+                    covered = covered.max(b);
+                }
+            }
+            let want_fin = self.finished_halves.contains(&id);
+            if covered < w || (want_fin && !fin) {
+                self.fail("C17-retry-did-not-resend", format!("stream {id}: wrote {w} bytes{}, after the Retry re-sent [0,{covered}) fin={fin}", if want_fin { " and finished" } else { "" }));
+            }
+        }
+    }
+
     /// ack (or lose) one frame that is in flight
     fn ack_or_lose_valid(&mut self, ack: bool) {
         let i = self.rng.below(self.flight.len() as u64) as usize;
@@ -946,8 +1012,7 @@ impl G<'_> {
             }
             44 => {
                 if zero_rtt_phase && self.rng.chance(1, 2) {
-                    self.op("rtx0");
-                    self.flight.clear();
+                    self.retry();
                 } else {
                     self.op("view");
                 }
@@ -1058,7 +1123,18 @@ impl G<'_> {
                 }
             }
             96 => {
-                self.op("qmsi");
+                // a raise of the peer-stream limit that the peer has not been told about and that amounts to an
+                // eighth of the concurrency limit (any raise below 16) must be queued for announcement
+                let prev = self.v.clone();
+                if let Some(v) = self.op("qmsi") {
+                    let due = (0..2).any(|d| {
+                        let diff = prev.two("mr")[d].saturating_sub(self.rfc.adv_streams[d].max(prev.two("smr")[d]));
+                        diff > 0 && diff >= prev.two("mcr")[d] / 8
+                    });
+                    if due && v.result != "true" {
+                        self.fail("C06-max-streams-raise-not-announced", format!("qmsi -> {}: max_remote {:?} announced {:?} concurrency {:?}", v.result, prev.two("mr"), prev.two("smr"), prev.two("mcr")));
+                    }
+                }
             }
             97 => {
                 // a lost packet: the control frames it carried are queued again
@@ -1163,6 +1239,10 @@ impl G<'_> {
         self.sent_msd.clear();
         self.sent_ms = [false, false];
         self.closed_halves.clear();
+        self.wrote.clear();
+        self.finished_halves.clear();
+        self.reset_halves.clear();
+        self.acked_streams.clear();
         self.rfc = Rfc { side, adv_streams: [mrb, mru], adv_max_data: rw, init_msd: srw, ..Rfc::default() };
         let resp = self.r.op(&format!("streams new {} {mru} {mrb} {sw} {rw} {srw}", ["c", "s"][side as usize]));
         match View::parse(&resp) {
@@ -1191,6 +1271,10 @@ impl G<'_> {
         self.v = v.clone();
         self.rfc.update(&["rejected"], &v.result, true);
         self.closed_halves.clear();
+        self.wrote.clear();
+        self.finished_halves.clear();
+        self.reset_halves.clear();
+        self.acked_streams.clear();
         self.flight.clear();
         self.local.clear();
         self.fresh.clear();
@@ -1274,6 +1358,30 @@ impl G<'_> {
             self.op("reset 7 5");
             self.write_exact(3, 1);
             self.write_exact(7, 1);
+        }
+        // retry-empty-fin: a stream opened and finished in 0-RTT without data, FIN transmitted, then a Retry
+        if self.start(0, 0, 0, 1000, 1000, 1000) {
+            self.apply_params([100, 100, 100, 10, 10, 1000]);
+            self.open_dir(1);
+            self.op("finish 2");
+            self.op("transmit 1200 1");
+            self.open_dir(0);
+            self.op("write 0 5");
+            self.op("finish 0");
+            self.op("transmit 1200 1");
+            self.retry();
+        }
+        // small-raise: concurrency limit 8 -> 9 with all streams open: the raise must be announced
+        if self.start(1, 2, 8, 1000, 1000, 1000) {
+            self.apply_params([100, 100, 100, 2, 2, 1000]);
+            self.op("maxconc bi 9");
+            let prev = self.v.clone();
+            if let Some(v) = self.op("qmsi") {
+                if v.result != "true" {
+                    self.fail("C06-max-streams-raise-not-announced", format!("maxconc bi 8 -> 9 then qmsi -> {} (max_remote {:?} announced {:?})", v.result, prev.two("mr"), prev.two("smr")));
+                }
+            }
+            self.op("ctrl");
         }
         // dup-reset: window shrunk (debt), RESET_STREAM, then the same RESET_STREAM again
         if self.start(1, 2, 2, 1000, 16, 16384) {
@@ -1522,6 +1630,10 @@ pub fn streams(rng: &mut Rng, r: &mut Runner, maxops: usize) {
         v: View::default(),
         rfc: Rfc::default(),
         closed_halves: BTreeSet::new(),
+        wrote: BTreeMap::new(),
+        finished_halves: BTreeSet::new(),
+        reset_halves: BTreeSet::new(),
+        acked_streams: BTreeSet::new(),
         flight: Vec::new(),
         local: Vec::new(),
         accepted: Vec::new(),
